@@ -28,7 +28,8 @@ Full statement / proved / missing
   `C13_writeonce` / `C13_writeonce_reach` — the shared state only grows: a binding, once made, is never changed or removed;
   `C13_agree` (with `C13_found_has_source`) — all threads agree on the single value bound to a name in a loader: two
       answers that handed out the value of (loader level, key) handed out the same value, and every `found` answer has
-      such a source;
+      such a source; NOT per loader asked — `C13_agree_is_per_level` (audit): two lookups of one name through one loader
+      can be handed the values of two different levels (the known finding below);
   `C13_nocrash` — no operation ends in a fault: in particular the placeholder `SetEntry` in load's miss window never
       raises, whatever was defined in the window (`C13_miss_window_crash_before_fix`: it did before fix e398ee4);
   `C13_sc_partial` — towards `C13_full`: when a lookup has read its last level, its answer is `resolve` of the CURRENT
@@ -289,6 +290,41 @@ theorem C13_miss_window_crash_before_fix :
     setEntryBeforeFix [("k", some (.ty 1))] "k" none = none ∧ (setEntry [("k", some (.ty 1))] "k" none).2 = .kept := by
   decide +kernel
 
+/-! #### added by the audit (notes/audit-C13.md): concrete non-trivial instances -/
+
+-- non-vacuity of C13_nocrash / C13_writeonce INSIDE the miss window (the whole schedule, not only `setEntry`): thread 0 looks
+-- `a` up in loader 0, finds nothing and is parked at "load.miss-window"; thread 1 defines `a`; thread 0 then offers its
+-- placeholder over the definition: it answers not-found (a legal sequential answer: its lookup came first), no fault, and the
+-- binding made in the window is still there
+def isMiss (t : Thread) : Bool := match t.pc with | .loadMiss _ _ => true | _ => false
+def missWindowConfig : Config := runSched (Config.init [none] [[.load 0 na], [.define 0 na (.ty 1)]]) [0, 0, 1]
+example : Reachable (Config.init [none] [[.load 0 na], [.define 0 na (.ty 1)]]) missWindowConfig :=
+  reachable_runSched _ _ _ Reachable.init
+example : missWindowConfig.th.map isMiss = [true, false] ∧ bound missWindowConfig.sh 0 (canon na) = some (.ty 1) ∧
+    ((stepAt missWindowConfig 0).th.map fun t => t.log.map (·.1)) = [[.notfound], [.ok]] ∧
+    bound (stepAt missWindowConfig 0).sh 0 (canon na) = some (.ty 1) := by decide +kernel
+
+-- non-trivial instance of C13_writeonce: a step that CHANGES the shared state (a definition), then a step that tries to
+-- re-define the name with another value: it is answered by the redefinition error and the binding stays
+def redefConfig : Config :=
+  stepAt (Config.init [none, some 0] [[.define 0 nA (.ty 1), .define 0 nA (.ty 9)], [.load 1 na]]) 0
+example : bound (Config.init [none, some 0] [[.define 0 nA (.ty 1), .define 0 nA (.ty 9)], [.load 1 na]]).sh 0 (canon nA) = none ∧
+    bound redefConfig.sh 0 (canon nA) = some (.ty 1) ∧ bound (stepAt redefConfig 0).sh 0 (canon nA) = some (.ty 1) ∧
+    ((stepAt redefConfig 0).th.map fun t => t.log.map (·.1)) = [[.ok, .reported "PCORE_ATTEMPT_TO_REDEFINE_TYPE"], []] := by
+  decide +kernel
+
+/-- WHAT `C13_agree` DOES NOT SAY (audit): the agreement is per (loader LEVEL, key) — the ghost source of an answer — not per
+    (loader asked, name).  Two goroutines that look the SAME name up through the SAME loader can be handed DIFFERENT values:
+    the schedule of `C13_full_fails` with a third thread that looks `a` up through loader 1 afterwards.  Thread 0 is handed
+    loader 1's value, thread 2 loader 0's (same key: `A` and `a` fold to one key).  Both answers have a source that still
+    binds the value (`C13_found_has_source`), so `C13_agree` holds of them — vacuously, the levels differ.  This is the known
+    finding C13-chain-walk-not-atomic seen from the "all goroutines agree" clause of the property. -/
+theorem C13_agree_is_per_level :
+    let c := execute [none, some 0] [[.load 1 na], [.define 0 nA (.ty 1), .define 1 na (.ty 2)], [.load 1 na]] [0, 0, 1, 1]
+    Quiescent c ∧ (c.th.map fun t => t.log.map (·.1)) = [[.found (.ty 2)], [.ok, .ok], [.found (.ty 1)]] ∧
+    (c.th.map fun t => t.log.map (·.2)) = [[some (1, canon na, .ty 2)], [none, none], [some (0, canon na, .ty 1)]] := by
+  decide +kernel
+
 end Pcore.LoaderConc
 
 /-! ### file-based loading: instantiated exactly once -/
@@ -455,6 +491,12 @@ def fixedSites : List CacheSite := Pcore.Generated.cacheSites.map fun s => { s w
 example : publishAfterInit fixedSites = true ∧ Cfg.ofTable fixedSites = cleanCfg := by decide
 -- and the current table configures the model with publication first in all four functions
 example : Cfg.ofTable Pcore.Generated.cacheSites = { arrRed := true, arrDet := true, hshRed := true, hshDet := true } := by decide
+-- added by the audit: the CONCLUSION of C13_lazy_caches on a concrete run — the schedule of `C13_cache_half_built` (thread 0
+-- parked right after its first step, thread 1 asks) under the publication-last table answers `full`, under the current table `half`
+example : (stepAt (Cfg.ofTable fixedSites) (stepAt (Cfg.ofTable fixedSites) (Config.init .arr 1 [[.ptype], [.ptype]]) 0) 1).th.map (·.log)
+      = [[], [.full]] ∧
+    (stepAt (Cfg.ofTable Pcore.Generated.cacheSites) (stepAt (Cfg.ofTable Pcore.Generated.cacheSites)
+      (Config.init .arr 1 [[.ptype], [.ptype]]) 0) 1).th.map (·.log) = [[], [.half]] := by decide
 
 end Pcore.LazyCache
 
@@ -767,5 +809,13 @@ example : (midConfig.th.map (·.pc)) = [.resCall ⟨0, 2⟩ [0, 1] 0 0 [.bind 0,
 -- first array (capacity 2 here) having overflowed
 example : let c := execute { cleanCfg with cap0 := 2 } 3 [[.resolve], [.decl]] [0, 1, 0, 0]
     Quiescent c ∧ qItems c.sh = [3] ∧ c.sh.resolved = [0, 1, 2] ∧ c.sh.heap.length = 3 := by decide +kernel
+-- added by the audit: non-vacuity of the SECOND conjunct of C13_queue_reads_popped (`midConfig` is parked at `resCall`, where
+-- that conjunct has no instance): thread 0 has popped two types and is about to READ slot 0 outside the lock (`bindRead`,
+-- not a yield point of the scheduler, hence `stepAt`) when thread 1 declares a third type — the popped slice still shows
+-- what it held when popped, the new type went into the new queue array
+def readConfig : Config := stepAt cleanCfg (stepAt cleanCfg (Config.init cleanCfg 2 [[.resolve], [.decl]]) 0) 1
+example : (readConfig.th.map (·.pc)) = [.bindRead ⟨0, 2⟩ [0, 1] 0 [], .idle] ∧ readConfig.sh.next = 3 ∧
+    slotAt readConfig.sh.heap ⟨0, 2⟩ 0 = some 0 ∧ slotAt readConfig.sh.heap ⟨0, 2⟩ 1 = some 1 ∧ qItems readConfig.sh = [2] := by
+  decide +kernel
 
 end Pcore.ConcQueue
